@@ -293,6 +293,11 @@ func search(t *testing.T, spec *Spec) {
 		}
 		seed := RunSeed(base, idx)
 		sc := spec.Gen(prop, tier, rand.New(rand.NewPCG(seed, 1)), idx)
+		if os.Getenv("SIM_RACE") != "" {
+			// the race detector ends the process on a report: leave the workload in flight behind
+			raw, _ := json.Marshal(sc)
+			writeJSON(out+".current", &Found{Engine: spec.Name, BaseSeed: base, Index: idx, RunSeed: seed, Scenario: raw})
+		}
 		o := spec.Run(t, prop, sc, simrt.Config{Seed: seed})
 		st.Runs++
 		account(sc, o, idx)
@@ -307,7 +312,7 @@ func search(t *testing.T, spec *Spec) {
 			st.Found = mkFound(spec, prop, sc, o, base, idx, seed)
 			break
 		}
-		if k%50 == 7 { // determinism recheck: same (scenario, seed) must give the same log
+		if k%50 == 7 && os.Getenv("SIM_RACE") == "" { // determinism recheck: same (scenario, seed) must give the same log
 			sc2 := spec.Gen(prop, tier, rand.New(rand.NewPCG(seed, 1)), idx)
 			o2 := spec.Run(t, prop, sc2, simrt.Config{Seed: seed})
 			st.Reruns++
@@ -351,6 +356,11 @@ type ReplayResult struct {
 
 func replay(t *testing.T, spec *Spec) {
 	f, sc := loadFound(spec)
+	if os.Getenv("SIM_RACE") != "" {
+		for i := 0; i < 20; i++ {
+			spec.Run(t, f.Prop, sc, simrt.Config{Seed: f.RunSeed})
+		}
+	}
 	o := spec.Run(t, f.Prop, sc, simrt.Config{Seed: f.RunSeed, Tape: f.Tape, Replay: true})
 	rr := ReplayResult{LogHash: LogHash(o.Res.Events)}
 	if o.V != nil {
